@@ -177,3 +177,92 @@ func c14RecordTraversal(c *Ctx, f srcFile, r *rand.Rand) traceItem {
 	c.Traces(int64(runs))
 	return traceItem{Key: f.Path, Trace: out.Bytes(), Events: out.Len(), Replay: obj{"kind": "c14trav", "path": f.Path}}
 }
+
+// c14RootReplace: Apply's return value. The root itself is replaced (in pre or in post) and the
+// traversal is stopped by post returning false at every possible point; the node Apply returns and
+// the callback log must be those of astutil.Apply on the same expression.
+func c14RootReplace(c *Ctx) {
+	exprs := []string{"a + b", "f(a, b)", "a", "x.y[i]", "func() { g() }"}
+	for _, src := range exprs {
+		for _, where := range []string{"none", "pre", "post"} {
+			for abortAt := 0; abortAt <= 6; abortAt++ {
+				key := fmt.Sprintf("root-replace|%s|%s|post-false-at-%d", src, where, abortAt)
+				ae, err := parser.ParseExpr(src)
+				if err != nil {
+					c.Infra(err.Error())
+					return
+				}
+				de, err := decorator.NewDecorator(nil).DecorateNode(ae)
+				if err != nil {
+					c.Infra(err.Error())
+					return
+				}
+				var dlog, alog []string
+				var dres dst.Node
+				var ares ast.Node
+				posts := 0
+				dmsg := guard(func() {
+					dres = dstutil.Apply(de, func(cu *dstutil.Cursor) bool {
+						if cu.Node() == nil {
+							return true // absent optional children: the astutil version at hand predates type parameters
+						}
+						dlog = append(dlog, fmt.Sprintf("pre %s", strings.TrimPrefix(fmt.Sprintf("%T", cu.Node()), "*dst.")))
+						if where == "pre" && cu.Node() == de {
+							cu.Replace(dst.NewIdent("r"))
+						}
+						return true
+					}, func(cu *dstutil.Cursor) bool {
+						if cu.Node() == nil {
+							return true
+						}
+						posts++
+						dlog = append(dlog, fmt.Sprintf("post %s", strings.TrimPrefix(fmt.Sprintf("%T", cu.Node()), "*dst.")))
+						if where == "post" && cu.Node() == de {
+							cu.Replace(dst.NewIdent("r"))
+						}
+						return posts != abortAt
+					})
+				})
+				posts = 0
+				amsg := guard(func() {
+					ares = astutil.Apply(ae, func(cu *astutil.Cursor) bool {
+						if cu.Node() == nil {
+							return true
+						}
+						alog = append(alog, fmt.Sprintf("pre %s", strings.TrimPrefix(fmt.Sprintf("%T", cu.Node()), "*ast.")))
+						if where == "pre" && cu.Node() == ae {
+							cu.Replace(ast.NewIdent("r"))
+						}
+						return true
+					}, func(cu *astutil.Cursor) bool {
+						if cu.Node() == nil {
+							return true
+						}
+						posts++
+						alog = append(alog, fmt.Sprintf("post %s", strings.TrimPrefix(fmt.Sprintf("%T", cu.Node()), "*ast.")))
+						if where == "post" && cu.Node() == ae {
+							cu.Replace(ast.NewIdent("r"))
+						}
+						return posts != abortAt
+					})
+				})
+				c.Eval(key, where != "none" || abortAt > 0)
+				desc := func(n interface{}) string {
+					switch x := n.(type) {
+					case *dst.Ident:
+						return "Ident " + x.Name
+					case *ast.Ident:
+						return "Ident " + x.Name
+					}
+					s := fmt.Sprintf("%T", n)
+					return strings.TrimPrefix(strings.TrimPrefix(s, "*dst."), "*ast.")
+				}
+				got := fmt.Sprintf("returns %s; panic %q; log %s", desc(dres), dmsg, strings.Join(dlog, ","))
+				want := fmt.Sprintf("returns %s; panic %q; log %s", desc(ares), amsg, strings.Join(alog, ","))
+				if got != want {
+					c.Fail(Finding{Sig: "apply-differs-from-astutil", Input: key, What: fmt.Sprintf("%s: dstutil.Apply %s, astutil.Apply %s", key, got, want), Replay: obj{"kind": "none"}})
+				}
+			}
+		}
+	}
+}
